@@ -180,7 +180,9 @@ static Outcome serve_once(Ctx& c, const Table& t, const std::vector<std::uint8_t
   return o;
 }
 
-template <int K> void refill_slot(Rng& r) { RetT<K> v{}; fill(r, v, 0); Slot<K>::ret = v; }
+// return values: depth 1 most of the time (a reply is echoed on every successful dispatch of its method: a
+// 64K-element reply would dominate the run), depth 0 - with the long container lengths - occasionally
+template <int K> void refill_slot(Rng& r) { RetT<K> v{}; fill(r, v, r.chance(4) ? 0 : 1); Slot<K>::ret = v; }
 static void refill_all(Rng& r) {
   refill_slot<0>(r); refill_slot<1>(r); refill_slot<2>(r); refill_slot<3>(r); refill_slot<4>(r);
   refill_slot<5>(r); refill_slot<6>(r); refill_slot<7>(r); refill_slot<8>(r); refill_slot<9>(r); refill_slot<10>(r);
@@ -350,6 +352,8 @@ static void run(Ctx& c) {
         refill_all(rng);
         for (std::size_t cut = 0; cut < q.size(); cut++) {
           if (q.size() > 24 && !c.thorough && cut > 8 && cut + 4 < q.size() && !rng.chance(15)) continue;
+          // every cut of a long request would be quadratic in its length: the two ends and a sample of the middle
+          if (q.size() > 400 && cut > 64 && cut + 64 < q.size() && rng.below(q.size()) >= 200) continue;
           std::vector<std::uint8_t> w(q.begin(), q.begin() + static_cast<long>(cut));
           Outcome o = serve_once(c, t, w, 0, "truncated");
           if (o.ok) c.line('X', std::string("C14 truncated-request-dispatched table=") + t.name + " request=" + hex(w));
